@@ -889,6 +889,34 @@ class VmapBatchHandler:
 
         # Compute new sample shape
         n = static_dim_length(batch_axes, vector_args)
+        if n is not None:
+            # Some parameters carry the mapped axis: lane i must be one draw from
+            # the sampler applied to lane i's slice of every parameter, whatever
+            # axis the lanes sit on, whatever the parameters' ranks and whatever
+            # the site's own sample_shape. Map the keyful sampler over the lanes
+            # (one independent key per lane); the lanes come out along axis 0.
+            base_sampler = self.config.keyful_sampler
+
+            def lanewise_sampler(key, *args, sample_shape=(), **kwargs):
+                keys = jrand.split(key, n)
+                return jax.vmap(
+                    lambda k, *a: base_sampler(
+                        k, *a, sample_shape=sample_shape, **kwargs
+                    ),
+                    in_axes=(0, *batch_axes),
+                )(keys, *args)
+
+            new_config = SamplerConfig(
+                keyful_sampler=lanewise_sampler,
+                name=self.config.name,
+                sample_shape=self.config.sample_shape,
+                support=self.config.support,
+                primitive=self.config.primitive,
+                primitive_params=dict(self.config.primitive_params),
+            )
+            result = create_sample_primitive(new_config)(*vector_args)
+            return (result,), (0,)
+
         outer_batch_dim = self._compute_outer_batch_dim(n, axis_size)
         new_sample_shape = outer_batch_dim + self.config.sample_shape
 
@@ -1478,6 +1506,10 @@ def seed(
 
     @wraps(f)
     def wrapped(key: PRNGKey, *args, **kwargs):
+        if not jnp.issubdtype(key.dtype, jax.dtypes.prng_key):
+            # legacy uint32 keys (jax.random.PRNGKey): same stream, typed representation,
+            # so that samplers may derive per-lane keys from the key they are handed
+            key = jrand.wrap_key_data(key)
         interpreter = Seed(key)
         return interpreter.eval(
             f,
